@@ -33,7 +33,7 @@ fn run_once() -> Result<Eval, ()> {
 }
 
 //@ obligation: C04.quiescence.body_arith
-//@ property: C04
+//@ property: C04 C08
 //@ domain: bounded(<= 3 moves handed out per node)
 //@ functions: engine/search/quiescence.rs::quiescence
 //@ timeout: 1800
